@@ -176,7 +176,7 @@ def run_engine(ck, tier, seed, pids, with_passloop=False):
             return
         if h.summary:
             ck.traces += h.summary["cases"]
-            ck.extra["impl"]["wild/" + cfg] = dict(h.summary["extra"], passes_counted=h.summary.get("passes_counted"), worst_iter_permille_of_bound=h.summary.get("worst_iter_permille_of_bound"))
+            ck.extra.setdefault("impl", {})["wild/" + cfg] = dict(h.summary["extra"], passes_counted=h.summary.get("passes_counted"), worst_iter_permille_of_bound=h.summary.get("worst_iter_permille_of_bound"))
     # (b) GDL-lite reference programs under every direction value
     gcases = c06.gen_cases(ck, "quick" if q else tier, seed, tmp)
     if gcases is None:
@@ -193,7 +193,7 @@ def run_engine(ck, tier, seed, pids, with_passloop=False):
         return
     if h.summary:
         ck.traces += h.summary["cases"]
-        ck.extra["impl"]["gdl_all_dirs"] = dict(h.summary["extra"], passes_counted=h.summary.get("passes_counted"))
+        ck.extra.setdefault("impl", {})["gdl_all_dirs"] = dict(h.summary["extra"], passes_counted=h.summary.get("passes_counted"))
     # (c) corpus under all direction values, two sizes, two option sets
     js = []
     for d in range(8):
@@ -212,4 +212,4 @@ def run_engine(ck, tier, seed, pids, with_passloop=False):
         vlib.absorb(ck, h, pid=p)
     if h.summary:
         ck.traces += h.summary["extra"]["segments"]
-        ck.extra["impl"]["corpus_all_dirs"] = dict(h.summary["extra"], passes_counted=h.summary.get("passes_counted"), worst_iter_permille_of_bound=h.summary.get("worst_iter_permille_of_bound"))
+        ck.extra.setdefault("impl", {})["corpus_all_dirs"] = dict(h.summary["extra"], passes_counted=h.summary.get("passes_counted"), worst_iter_permille_of_bound=h.summary.get("worst_iter_permille_of_bound"))
